@@ -237,6 +237,7 @@ func SynMenu() []spec.Batch {
 		mk(3, 3, 11), // M3: s1: b->[y] twice; s2: a->[x], b->[x,z]
 		mk(0),        // M4: no synonyms at all
 		{},           // M5: empty batch
+		mk(15, 16),   // M6: three-term thesauri s1 and s2 (a term loop with more than one term change)
 	}
 }
 
